@@ -1,8 +1,8 @@
 (* Correspondence cases for C19: one `kustomize edit fix` on a kustomization file.
    Same shape as a C17 step: observed outcome class, file afterwards, its strict Unmarshal and the
-   yaml.Marshal table; the model is FixProofs.fix_cmd (Read -> FixKustomizationPreMarshalling -> Write). *)
+   yaml.Marshal table; the model is FixCmd.fix_cmd (Read -> FixKustomizationPreMarshalling -> Write). *)
 From KV Require Export Corr.C17.
-From KV Require Export Edit.FixProofs.
+From KV Require Export Edit.FixCmd.
 Local Open Scope list_scope.
 
 Record case19 := mkCase19 {
